@@ -11,8 +11,10 @@ for d in sorted(glob.glob(os.path.join(V, "seeded", "C*-*"))):
     def verdict(x):
         if not x:
             return "-"
+        # detected = exit 1 WITH a VIOLATION line (a driver crash also exits 1 and is not a detection)
+        det = any(r["exit"] == 1 and (r.get("violation_lines") or r.get("violations") or "violation_lines" not in r and "violations" not in r) for r in x.values())
         ex = [r["exit"] for r in x.values()]
-        return "detected" if 1 in ex else ("undecided (exit 2)" if 2 in ex else "missed")
+        return "detected" if det else ("undecided (exit 2)" if 2 in ex else ("driver error" if 1 in ex else "missed"))
     ob = ""
     src = now or first
     for p, r in src.items():
